@@ -389,7 +389,7 @@ theorem allSigParams_append : ∀ (l1 l2 : List ClassDef),
 
 theorem lookup_sigParams_req {s : Sig} {n : String} (h : n ∈ s.req) (rest : List (String × Bool)) :
     lookup n (sigParams s ++ rest) = some true := by
-  simp only [sigParams, List.append_assoc, lookup_append, lookup_mapConst]
+  simp only [sigParams, List.append_assoc, lookup_append_orElse, lookup_mapConst]
   simp [h]
 
 theorem lookup_pre {n : String} {rest : List (String × Bool)} (hr : lookup n rest = some true) :
@@ -401,11 +401,11 @@ theorem lookup_pre {n : String} {rest : List (String × Bool)} (hr : lookup n re
     by_cases hq : n ∈ p.sig.req
     · exact lookup_sigParams_req hq _
     · have ho : n ∉ p.sig.opt := fun ho => hq (h p List.mem_cons_self ho)
-      simp only [sigParams, List.append_assoc, lookup_append, lookup_mapConst]
+      simp only [sigParams, List.append_assoc, lookup_append_orElse, lookup_mapConst]
       simp only [List.contains_eq_mem, hq, ho, decide_false, Bool.false_eq_true, if_false,
         Option.orElse_none]
       have := lookup_pre hr ps (fun q hq' => h q (List.mem_cons_of_mem _ hq'))
-      simpa [lookup_append] using this
+      simpa [lookup_append_orElse] using this
 
 
 end Typedpy
